@@ -19,6 +19,7 @@ package mem
 //@ func newNode inline
 //@ func (*topicNode).newChild inline
 //@ func isSystemTopic inline
+//@ func sharedIndexKey inline
 
 // subscribe: the subscription is installed at the node it returns — in clients (non-shared) or in the group's member
 // map (shared) —, the node carries the filter as its name, no other entry of any node changes, no link is removed.
@@ -52,6 +53,9 @@ package mem
 // that is unlinked has no child and no entry of the kind this trie holds.)
 //@ ensures [C02 C11] forall n *topicNode, k string :: live(n) && old(has(n.children, k)) && !has(n.children, k) ==> len(old(n.children[k]).children) == 0 && (shareName == "" ? len(old(n.children[k]).clients) == 0 : len(old(n.children[k]).shared) == 0)
 //@ ensures [C02] forall n *topicNode, k string :: live(n) && has(n.children, k) ==> old(has(n.children, k)) && n.children[k] == old(n.children[k])
+// maps of the same type that are not the children of a node (the per-client tables of the store's index) are not touched
+//@ ensures [C02] forall idx map[string]map[string]*topicNode, c string, k string :: old(idxSep(idx) && has(idx, c)) ==> has(idx[c], k) == old(has(idx[c], k)) && idx[c][k] == old(idx[c][k])
+//@ preserves all(TrieDB.*), allmaps(string, map[string]*topicNode), allmaps(string, *subscription.Stats), all(subscription.Stats.*)
 //@ loop 1 invariant pNode != nil && live(pNode) && nodesOK() && ownsOK() && (rangeindex >= 0 ==> live(pNode.parent) && has(pNode.parent.children, topicSlice[rangeindex]) && pNode.parent.children[topicSlice[rangeindex]] == pNode)
 
 // IterateLocked — routing between the three tries. A topic name that starts with '$' never reaches the user trie
@@ -147,16 +151,50 @@ package mem
 //@ spec func keyFor(share string, filter string) string = share == "" ? filter : concat(concat(share, "/"), filter)
 // dbOK: the store's own shape — its tries and index tables exist, the per-client index maps are not node maps, and a
 // client that has an index table has a statistics block.
-//@ spec func dbOK(db *TrieDB) bool = db != nil && db.sharedTrie != nil && db.systemTrie != nil && db.userTrie != nil && db.clientStats != nil && db.userIndex != nil && db.systemIndex != nil && db.sharedIndex != nil && idxSep(db.userIndex) && idxSep(db.systemIndex) && idxSep(db.sharedIndex) && (forall c string :: (has(db.userIndex, c) && db.userIndex[c] != nil) || (has(db.systemIndex, c) && db.systemIndex[c] != nil) || (has(db.sharedIndex, c) && db.sharedIndex[c] != nil) ==> db.clientStats[c] != nil)
+//@ spec func dbOK(db *TrieDB) bool = db != nil && live(db.sharedTrie) && live(db.systemTrie) && live(db.userTrie) && db.clientStats != nil && db.userIndex != nil && db.systemIndex != nil && db.sharedIndex != nil && (forall c string :: (has(db.userIndex, c) && db.userIndex[c] != nil) || (has(db.systemIndex, c) && db.systemIndex[c] != nil) || (has(db.sharedIndex, c) && db.sharedIndex[c] != nil) ==> db.clientStats[c] != nil)
 //@ spec func dbSame(db *TrieDB) bool = db.sharedTrie == old(db.sharedTrie) && db.systemTrie == old(db.systemTrie) && db.userTrie == old(db.userTrie) && db.userIndex == old(db.userIndex) && db.systemIndex == old(db.systemIndex) && db.sharedIndex == old(db.sharedIndex) && db.clientStats == old(db.clientStats)
-// (not yet discharged) func (*TrieDB).UnsubscribeLocked
-// (not yet discharged) props C02 C11
-// (not yet discharged) requires [C02] dbOK(db) && nodesOK() && ownsOK()
-// (not yet discharged) waive overflow
-// (not yet discharged) modifies heap
-// (not yet discharged) loop 1 invariant dbOK(db) && dbSame(db)
-// (not yet discharged) loop 1 invariant nodesOK()
-// (not yet discharged) loop 1 invariant ownsOK()
-// (not yet discharged) call topicNode.unsubscribe#1 assert [C02 C11] $arg1 == clientID && $arg2 == filterOf(topics[rangeindex]) && $arg3 == shareOf(topics[rangeindex]) && $arg0 == trieFor(db, $arg3, $arg2)
-// (not yet discharged) loop 1 step [C02 C11] called(topicNode.unsubscribe#1) == at(iter1, called(topicNode.unsubscribe#1)) + 1
-// (not yet discharged) loop 1 step [C02 C11] !has(idxFor(db, shareName, topic#2)[clientID], keyFor(shareName, topic#2))
+// (checked as the store's bookkeeping around the trie: what topicTrie.unsubscribe needs and does is the subject of its own
+// contract above; here its precondition is assumed and its effect on the tries left out)
+//@ spec func dbShape(db *TrieDB) bool = db != nil && db.sharedTrie != nil && db.systemTrie != nil && db.userTrie != nil && db.clientStats != nil && db.userIndex != nil && db.systemIndex != nil && db.sharedIndex != nil && (forall c string :: has(db.userIndex, c) || has(db.systemIndex, c) || has(db.sharedIndex, c) ==> db.clientStats[c] != nil) && (forall c string :: db.clientStats[c] != db.stats)
+//@ func (*TrieDB).UnsubscribeLocked
+//@ props C02 C11
+//@ requires [C02] dbShape(db)
+//@ waive overflow requires
+// topicTrie.unsubscribe keeps the store's fields, its index tables (also the per-client ones: they are no node's children map)
+// and the counters (its contract above: preserves … and the clause about maps that are not children of a node)
+//@ abstract call topicTrie).unsubscribe pure contract
+//@ modifies heap
+//@ loop 1 invariant dbShape(db) && dbSame(db)
+//@ call topicNode.unsubscribe#1 assert [C02 C11] $arg1 == clientID && $arg2 == filterOf(topics[rangeindex]) && $arg3 == shareOf(topics[rangeindex]) && $arg0 == trieFor(db, $arg3, $arg2)
+//@ loop 1 step [C02 C11] called(topicNode.unsubscribe#1) == at(iter1, called(topicNode.unsubscribe#1)) + 1
+// the index forgets exactly the key of this subscription ("<group>/<filter>" for a shared one), in the table of its kind
+//@ loop 1 step [C02 C11] index == idxFor(db, shareName, topic#2)
+//@ loop 1 step [C02 C11] key == keyFor(shareName, topic#2)
+//@ loop 1 step [C02 C11] !(has(index, clientID) && has(index[clientID], key))
+// the counters go down by one exactly when the index knew the subscription — the store's and the client's alike
+//@ loop 1 step [C02] !(at(iter1, has(idxFor(db, shareName, topic#2), clientID)) && at(iter1, has(idxFor(db, shareName, topic#2)[clientID], keyFor(shareName, topic#2)))) ==> db.stats.SubscriptionsCurrent == at(iter1, db.stats.SubscriptionsCurrent)
+//@ loop 1 step [C02] at(iter1, has(idxFor(db, shareName, topic#2), clientID)) && at(iter1, has(idxFor(db, shareName, topic#2)[clientID], keyFor(shareName, topic#2))) && at(iter1, db.stats.SubscriptionsCurrent) > 0 ==> db.stats.SubscriptionsCurrent + 1 == at(iter1, db.stats.SubscriptionsCurrent)
+//@ loop 1 step [C02] !(at(iter1, has(idxFor(db, shareName, topic#2), clientID)) && at(iter1, has(idxFor(db, shareName, topic#2)[clientID], keyFor(shareName, topic#2)))) ==> (forall c string :: db.clientStats[c] != nil ==> db.clientStats[c].SubscriptionsCurrent == at(iter1, db.clientStats[c].SubscriptionsCurrent))
+//@ loop 1 step [C02] at(iter1, has(idxFor(db, shareName, topic#2), clientID)) && at(iter1, has(idxFor(db, shareName, topic#2)[clientID], keyFor(shareName, topic#2))) && at(iter1, db.clientStats[clientID].SubscriptionsCurrent) > 0 ==> db.clientStats[clientID].SubscriptionsCurrent + 1 == at(iter1, db.clientStats[clientID].SubscriptionsCurrent)
+
+// SubscribeLocked, as the store's bookkeeping around the trie (topicTrie.subscribe has its own contract above): each
+// subscription goes to the trie of its kind, once; the index of that kind remembers the node under the key of the
+// subscription ("<group>/<filter>" for a shared one); the counters go up by one exactly when the index did not know the
+// subscription yet, and the result says "already existed" exactly otherwise.
+//@ func (*TrieDB).SubscribeLocked
+//@ props C02 C11
+//@ requires [C02] dbShape(db) && (forall i int :: 0 <= i && i < len(subscriptions) ==> subscriptions[i] != nil)
+//@ waive overflow requires
+//@ abstract call topicTrie).subscribe pure contract
+//@ modifies heap
+//@ loop 1 invariant dbShape(db) && dbSame(db) && len(rs) == len(subscriptions) && subscriptions == old(subscriptions) && (forall i int :: 0 <= i && i < len(subscriptions) ==> subscriptions[i] != nil)
+//@ loop 1 invariant forall i int :: $k < i && i < len(rs) ==> !rs[i].AlreadyExisted
+//@ call topicNode.subscribe#1 assert [C02 C11] sub.ShareName != "" && $arg0 == db.sharedTrie && $arg1 == clientID && $arg2 == sub
+//@ call topicNode.subscribe#2 assert [C02] sub.ShareName == "" && len(sub.TopicFilter) >= 1 && sub.TopicFilter[0] == 36 && $arg0 == db.systemTrie && $arg1 == clientID && $arg2 == sub
+//@ call topicNode.subscribe#3 assert [C02] sub.ShareName == "" && !(len(sub.TopicFilter) >= 1 && sub.TopicFilter[0] == 36) && $arg0 == db.userTrie && $arg1 == clientID && $arg2 == sub
+//@ loop 1 step [C02 C11] called(topicNode.subscribe#1) + called(topicNode.subscribe#2) + called(topicNode.subscribe#3) == at(iter1, called(topicNode.subscribe#1) + called(topicNode.subscribe#2) + called(topicNode.subscribe#3)) + 1
+//@ loop 1 step [C02 C11] index == idxFor(db, sub.ShareName, sub.TopicFilter) && topicName == keyFor(sub.ShareName, sub.TopicFilter)
+//@ loop 1 step [C02 C11] has(index, clientID) && has(index[clientID], topicName) && index[clientID][topicName] == node
+//@ loop 1 step [C02] rs[k].Subscription == sub && rs[k].AlreadyExisted == (at(iter1, has(idxFor(db, sub.ShareName, sub.TopicFilter), clientID)) && at(iter1, has(idxFor(db, sub.ShareName, sub.TopicFilter)[clientID], keyFor(sub.ShareName, sub.TopicFilter))))
+//@ loop 1 step [C02] rs[k].AlreadyExisted ==> db.stats.SubscriptionsCurrent == at(iter1, db.stats.SubscriptionsCurrent) && db.stats.SubscriptionsTotal == at(iter1, db.stats.SubscriptionsTotal)
+//@ loop 1 step [C02] !rs[k].AlreadyExisted && at(iter1, db.stats.SubscriptionsCurrent) < 1000000000000 && at(iter1, db.stats.SubscriptionsTotal) < 1000000000000 ==> db.stats.SubscriptionsCurrent == at(iter1, db.stats.SubscriptionsCurrent) + 1 && db.stats.SubscriptionsTotal == at(iter1, db.stats.SubscriptionsTotal) + 1
